@@ -83,6 +83,7 @@ func C01_AllRoutes() {
 		o.write500 = verif.Choice("write500", 2) == 1
 	}
 	f := newFlow(o)
+	f.thoroughAxes()
 	routes := f.routes()
 	route := verif.Param("route") // debugging aid: restrict to one route
 	if route == "" {
